@@ -257,6 +257,9 @@ func observed(sig, hints map[string]string, sc replay.Script, rep *replay.Result
 		if k := sig["kind"]; k == "no-overlap" || k == "ordered-after-async" {
 			break
 		}
+		if sig["kind"] == "double-close" && strings.Contains(o.Panic, "close of closed channel") {
+			return true, "" // the panic ends the run wherever the script stood
+		}
 		if !o.Realised {
 			why = "schedule not realisable: " + o.StuckAt
 			continue
